@@ -16,6 +16,7 @@ EXPLANATION = (
     "document handle is dropped when the id changes (C03-b) and, on remove(), cleared before it is dropped so that no "
     "buffered write for a removed job survives; (c) the document setters funnel through reset() of the same handle."
     " A document collection is never entered into a table shared between handles (it lives in the handle's field only); the document setters perform reset() on every normal path."
+    ' (g) the document getter may skip init() only for a directory that exists (from C02-j); after rmtree every continuation of remove() - also through a handler that swallows an error of the clean-up - has dropped the document handle (C05-b); (h) a migration never resets / clears the project document (C05-h).'
 )
 UNDECIDED = ("Dict-equivalence for all operation sequences and buffered == unbuffered are semantics of the synced_collections "
              "dependency and are not decided by this analysis.")
